@@ -611,6 +611,8 @@ def strace_check(case):
         rep = json.loads(p.stdout.strip().splitlines()[-1])
         key = os.path.basename(rep["tmpdir"])
         kernel, written = [], 0
+        kview = []          # the kernel's view of the part file, for the Spec's kernel scan
+        part_base = part_name(case["cfg"])
         pids = []
         for line in open(out, errors="replace"):
             m = re.match(r"^(\d+)\s+(\w+)\((.*)\)\s+=\s+(-?\d+)", line)
@@ -628,18 +630,29 @@ def strace_check(case):
             if name in ("write", "pwrite64", "writev"):
                 if ret > 0:
                     written += ret
+                    kview.append(["write", ret])
                 continue
             if name in ("openat", "open") and not re.search(r"O_CREAT|O_WRONLY|O_RDWR|O_TRUNC|O_APPEND", args):
                 continue                 # read-only open
             if name in ("fsync", "fdatasync") and re.search(r"<[^>]*%s>" % re.escape(key), args):
                 continue                 # syncing the directory itself (not an event of the recorder either)
             kernel.append([_KIND[name], ret >= 0])
+            if ret >= 0:
+                kind = _KIND[name]
+                if kind == "open":
+                    kview.append(["create", "O_EXCL" in args])
+                elif kind == "fsync":
+                    kview.append(["fsync"])
+                elif kind in ("rename", "link") and re.search(r'%s"(, \d+)?$' % re.escape(DEST), args.strip()):
+                    kview.append(["publish"])
+                else:
+                    kview.append(["other"])
         recorded = [[e[0], e[-1] is None] for e in rep["trace"] if e[0] in ("open", "unlink", "rename", "link", "chmod", "fsync")]
         rec_written = sum(len(e[2].encode("latin-1")) for e in rep["trace"] if e[0] == "write" and e[-1] is None)
         if kernel != recorded or (written != rec_written and rep["outcome"][0] == "ok"):
             raise RuntimeError("strace cross-check: the kernel saw %r (%d bytes written) but the recorder recorded %r (%d bytes)"
                                % (kernel, written, recorded, rec_written))
-        return {"syscalls_matched": len(kernel), "bytes_written": written}
+        return {"syscalls_matched": len(kernel), "bytes_written": written, "kernel": kview}
     finally:
         shutil.rmtree(work, ignore_errors=True)
 
@@ -807,12 +820,31 @@ def case_term(case, obs, tb):
     new = utf8("".join(data_of(op) for op in case["body"] if op[0] == "w"))
     if len(new) > 3:
         tb.ref(new)
-    return "(mkCase %s %s %s %s %s %s %s %s %s %s)" % (
+    return "(mkCase %s %s %s %s %s %s %s %s %s %s %s)" % (
         c_cfg(case["cfg"]), cN(case.get("umask", 0o022)), c_init(case, tb), cbool(is_partlink(case["init"])),
         c_body(case, obs["run"]["trace"], tb), cbool(case.get("body_exc", False)), c_sched(case, tb),
         c_runobs(obs["run"], tb),
         clist("(%s, %s)" % (cnat(k), c_files(f, tb)) for k, f in obs["crashes"]),
-        clist(c_files(f, tb) for f in obs.get("asyncs", [])))
+        clist(c_files(f, tb) for f in obs.get("asyncs", [])),
+        c_kernel(obs.get("strace")))
+
+
+def c_kernel(st):
+    if not st:
+        return "None"
+    out = []
+    for k in st["kernel"]:
+        if k[0] == "create":
+            out.append("KCreate %s" % cbool(k[1]))
+        elif k[0] == "write":
+            out.append("KWrite %s" % cN(k[1]))
+        elif k[0] == "fsync":
+            out.append("KFsync")
+        elif k[0] == "publish":
+            out.append("KPublish")
+        else:
+            out.append("KOther")
+    return "(Some %s)" % clist(out)
 
 
 def to_coq(case, obs):
